@@ -36,11 +36,11 @@ var solverSeq int
 func NewSolver(tt *TermTable, kind string, logw io.Writer) (*Solver, error) {
 	var cmd *exec.Cmd
 	switch kind {
-	case "", "z3":
+	case "z3":
 		cmd = exec.Command("z3", "-in")
-		kind = "z3"
-	case "z3-new":
+	case "", "z3-new":
 		cmd = exec.Command("z3-new", "-in")
+		kind = "z3-new"
 	case "cvc5":
 		cmd = exec.Command("cvc5", "--incremental", "--lang", "smt2", "--produce-models")
 	default:
